@@ -540,6 +540,8 @@ func decodeAttempt(e *Event) (id string, input Val, ok bool) {
 }
 
 func ruleC12(c *Ctx) {
+	c.rule("C12-R7", "the inflated bytes reach the decoder as inflated: no append over a prefix of bytes a function did not make anywhere in the inbound cone (shared aliasingAppend)")
+	aliasingAppend(c, "C12-R7", c09Roots, true)
 	c.rule("C12-R1", "who-may-call: decompressor constructors (flate/zlib/gzip/bzip2/lzw readers) occur exactly once in library scope, inside maybeDeflate (positive control must fire)")
 	c.rule("C12-R2", "bounded read: the flate reader flows only into io.LimitReader(r, max+1) with max = parameter, or 5 MiB when the parameter is 0; only the limited reader is read")
 	c.rule("C12-R3", "explicit check: the second decoder invocation is reached only with len(out) <= max; the other edge returns a fresh error")
